@@ -5,7 +5,8 @@ bounds / tighten_bounds / is_complete / valid / edits / has_non_zero_cost, each 
 sub-edit named by its position in the last listing of its parent) the worker builds fresh trees and a fresh edit,
 performs the operations on the REAL edit object, records per call the outcome or the exception class, then drives the
 edit to completion with the library's idiom (TreeNode.diff's loop) and serialises the complete nested script
-(scriptlib.ser_edit).  This is done under both settings of DEFAULT_PRINTER.quiet (the objects bound in
+(scriptlib.ser_edit).  The empty history always runs; per pair and quiet setting the C03 views on fresh trees (sum over
+get_all_edits, diff().edited_cost()) are recorded as well.  This is done under both settings of DEFAULT_PRINTER.quiet (the objects bound in
 graphtage.printer, graphtage.tree and graphtage.levenshtein), next to the canonical drive (no history) of a fresh edit
 of the same pair.  A sample of pairs additionally goes through graphtage.__main__.main with --color / --no-color /
 --no-status, the root edit being picked up from TreeNode.diff's result.
@@ -147,6 +148,22 @@ def _run_history(item, quiet, hist):
     return {'quiet': bool(quiet), 'outs': outs, 'eff': eff, 'final': final, 'raised': raised, 'root': type(e).__name__}
 
 
+def _views(item, quiet):
+    """the other views of the total (C03) on fresh trees under one quiet setting: sum over get_all_edits, diff().edited_cost()"""
+    _set_quiet(quiet)
+    try:
+        a2, b2, _ = _build(item)
+        flat = 0
+        for e in a2.get_all_edits(b2):
+            sl._tighten(e)
+            flat += sl.cost_of(e)
+        a3, b3, _ = _build(item)
+        edited = int(a3.diff(b3).edited_cost())
+        return {'quiet': bool(quiet), 'flat': int(flat), 'edited': edited, 'raised': None}
+    except Exception as ex:  # noqa
+        return {'quiet': bool(quiet), 'flat': -1, 'edited': -1, 'raised': _trace_of(ex)}
+
+
 def _guarded(f, limit=ITEM_TIMEOUT):
     def on_alarm(signum, frame):
         # a BaseException: logging (where a spinning repeat_until_tightened spends its time) swallows Exceptions
@@ -182,6 +199,7 @@ def impl_history(item):
     ta = tb = None
     canon = None
     out_items = []
+    views = []
     timeout = False
     bad = False
     try:
@@ -194,7 +212,15 @@ def impl_history(item):
         canon['final'] = intern(canon['final'])
         bad = canon['raised'] is not None
         quiets = item.get('quiets', [True, False])
-        for hist in item['hists']:
+        if not bad and not item.get('ext'):
+            for q in quiets:
+                w = _guarded(lambda: _views(item, q), item.get('timeout', ITEM_TIMEOUT))
+                views.append(w)
+                if w['raised'] is not None:
+                    bad = True
+                    break
+        hists = item['hists'] if [] in item['hists'] else [[]] + list(item['hists'])     # the empty history always runs
+        for hist in hists:
             if bad:
                 break
             runs = []
@@ -223,8 +249,8 @@ def impl_history(item):
             pass
     if bad:
         DIRTY[0] = True
-    return {'a': ta, 'b': tb, 'canon': canon, 'scripts': [s0[1] for s0 in scripts], 'items': out_items,
-            'timeout': timeout, 'not_run': len(item['hists']) - len(out_items)}
+    return {'a': ta, 'b': tb, 'canon': canon, 'scripts': [s0[1] for s0 in scripts], 'items': out_items, 'views': views,
+            'timeout': timeout, 'not_run': max(0, len(item['hists']) - len(out_items))}
 
 
 class _NoClose(io.StringIO):
@@ -313,7 +339,9 @@ def impl_cli(item):
     canon.pop('eff', None)
     for r in runs:
         r['final'] = intern(r['final'])
-    return {'a': ta, 'b': tb, 'canon': canon, 'scripts': scripts, 'items': [{'hist': [], 'runs': runs}],
+    views = [] if DIRTY[0] else [_views(item, True), _views(item, False)]
+    _set_quiet(True)
+    return {'a': ta, 'b': tb, 'canon': canon, 'scripts': scripts, 'items': [{'hist': [], 'runs': runs}], 'views': views,
             'timeout': False, 'not_run': 0, 'cli': True}
 
 
@@ -372,8 +400,9 @@ def pcase_term(o):
     items = ';\n'.join(f'([{";".join(call_term(c) for c in it["hist"])}], [{";".join(run_term(r) for r in it["runs"])}])'
                        for it in o['items'])
     canon = o['canon']['final'] if o['canon'] else None
+    views = ';'.join(f'Build_view {sl.b(w["quiet"])} {sl.z(w["flat"])} {sl.z(w["edited"])}' for w in o.get('views', []))
     return (f'(Build_pcase {sl.tree_term(a)} {sl.tree_term(b)} [{";".join(sl.edit_term(s) for s in o["scripts"])}] '
-            f'{onat(canon)} {sl.b(o["timeout"])} [{items}])')
+            f'{onat(canon)} {sl.b(o["timeout"])} [{views}] [{items}])')
 
 
 # ------------------------------------------------------------------ generators
@@ -463,6 +492,57 @@ def replay_pairs():
     return out
 
 
+# mappings whose keys are RENAMED between the documents (so that the pair goes through the matcher and its edit is
+# "complete" long before its bounds are a single value), long similar keys, changed multi-character values
+RENAMED_KEYS = [('configuration_name', 'configuration-name'), ('aaaaaaaX', 'aaaaaaaY'), ('description_text', 'description-text'),
+                ('identifier_long_a', 'identifier_long_b'), ('server.hostname', 'server_hostname'), ('kez', 'key')]
+CHANGED_VALUES = [('abcde', 'abXde'), ('hello world', 'hello wörld'), ('value-123', 'value-124'), ('abcdefgh', 'abcXefg'),
+                  (12345, 12354), ('aXb', 'ab'), ('x', 'xyz'), ([1, 2, 3], [1, 3]), (None, 'None')]
+SCALARS = [5, 'abc', None, True, 1.5, '', 'configuration']
+
+
+def gen_renamed_mapping(rng, depth=0):
+    a, b = {}, {}
+    for ka, kb in rng.sample(RENAMED_KEYS, rng.randint(1, 2)):
+        va, vb = rng.choice(CHANGED_VALUES)
+        if depth < 1 and rng.random() < 0.25:
+            va, vb = gen_renamed_mapping(rng, depth + 1)
+        if rng.random() < 0.5:
+            ka, kb = kb, ka
+        a[ka], b[kb] = va, vb
+    if rng.random() < 0.4:
+        k = rng.choice(sl.KEYS)
+        if k not in a and k not in b:
+            a[k] = b[k] = rng.choice(SCALARS)
+    return a, b
+
+
+def gen_renamed_pair(rng):
+    """lists (lengths differ, or equal length > 1) of such mappings plus scalar siblings"""
+    xs, ys = [], []
+    for _ in range(rng.randint(1, 3)):
+        ma, mb = gen_renamed_mapping(rng)
+        xs.append(ma)
+        ys.append(mb)
+    sib = rng.choice(SCALARS)
+    r = rng.random()
+    if r < 0.4:
+        xs.insert(rng.randint(0, len(xs)), sib)                      # lengths differ
+    elif r < 0.7:
+        ys.insert(rng.randint(0, len(ys)), sib)
+    else:
+        p = rng.randint(0, len(xs))
+        xs.insert(p, sib)
+        ys.insert(rng.randint(0, len(ys)), rng.choice(SCALARS))      # equal length > 1
+    if rng.random() < 0.3:
+        ys.reverse()
+    if rng.random() < 0.25:
+        return {'k': xs, 'z': 1}, {'k': ys, 'z': 1}
+    if rng.random() < 0.2:
+        return [xs, 7], [ys]
+    return xs, ys
+
+
 def gen_items(tier, rng):
     from harness import pC04
     q = tier == 'quick'
@@ -482,6 +562,11 @@ def gen_items(tier, rng):
         for o in (('auto', 'on'), ('none', 'off'), ('match', 'same')):
             items.append({'a': a, 'b': b, 'opts': list(o),
                           'hists': [[]] + [rand_history(rng, rng.randint(1, 30)) for _ in range(3)], 'kind': 'fixed'})
+    # (a'') mappings with renamed keys inside lists, under the dictionary strategies that use the matcher
+    for k in range(150 if q else 1500):
+        a, b = gen_renamed_pair(rng)
+        items.append({'a': a, 'b': b, 'opts': [['auto', 'match'][k % 2], ['on', 'on', 'same', 'off'][k % 4]],
+                      'hists': [[]] + [rand_history(rng, rng.randint(1, 30)) for _ in range(3 if q else 8)], 'kind': 'renamed-keys'})
     # (c) generated pairs, the 9 option sets, random histories up to length 30
     n_list, n_doc = (260, 200) if q else (2500, 2000)
     for k in range(n_list):
@@ -628,7 +713,7 @@ def failing_histories(wd, st, o, pred, tag):
 
 def describe(wd, st, it, o, pred, tag):
     idx = failing_histories(wd, st, o, pred, tag)
-    rep = {'input': {'a': it['a'], 'b': it['b'], 'opts': it['opts']}, 'timeout': o['timeout'],
+    rep = {'input': {'a': it['a'], 'b': it['b'], 'opts': it['opts']}, 'timeout': o['timeout'], 'views_on_fresh_trees': o.get('views'),
            'canonical': {'raised': o['canon']['raised'] if o['canon'] else 'not run',
                          'script': o['scripts'][o['canon']['final']] if o['canon'] and o['canon']['final'] is not None else None}}
     if it.get('argvs'):
@@ -721,11 +806,15 @@ def check(tier, seed):
         run.cov['rule'] = ('pairs of JSON documents built by graphtage.json.build_tree under the 9 option sets. Streams: corpus; all '
                            'histories of root calls up to the stated length over the six public operations on the fixed small pairs; '
                            'random histories (length <= 30, calls on the root and on sub-edits addressed through earlier listings) on '
-                           'replays of repaired defects (D6, D21-D25), fixed pairs, generated list/string documents (nested lists, '
+                           'replays of repaired defects (D6, D21-D25), fixed pairs, lists of mappings with renamed long keys and changed '
+                           'multi-character values plus scalar siblings under the matcher strategies (auto, match), generated list/string documents (nested lists, '
                            'near ties, equal documents, shared prefixes/suffixes) and arbitrary generated documents; a sample through '
                            'graphtage.__main__.main with --color/--no-color x --no-status.  Every history is run on a fresh edit under '
                            'quiet = True and quiet = False (all three module-level DEFAULT_PRINTER bindings), then completed with '
-                           'TreeNode.diff\'s loop and serialised; the canonical drive is a fresh edit without history.  '
+                           'TreeNode.diff\'s loop and serialised; the canonical drive is a fresh edit without history; the empty history always '
+                           'runs under both settings, and per pair and setting the C03 views on fresh trees (sum over get_all_edits, '
+                           'diff().edited_cost()) are recorded.  holds_C05 also requires: quiet and non-quiet final costs equal, every final cost '
+                           '= sum of the leaves of its script, both views = the canonical cost.  '
                            'non-trivial = documents differ and the history is not empty; distinct by (a, b, options, history).')
         run.cov['samples'] = [{'a': ok[i][0]['a'], 'b': ok[i][0]['b'], 'opts': ok[i][0]['opts'],
                                'history': ok[i][1]['items'][-1]['hist'] if ok[i][1]['items'] else None}
